@@ -25,6 +25,7 @@ type WinsCase struct {
 	Kind   string            `json:"kind"`
 	Names  []string          `json:"names"`
 	When   map[string]string `json:"when"` // never | stock | before | after | after-run
+	Plain  map[string]bool   `json:"plain,omitempty"` // the script's function takes no argument and returns a small number
 	NoOpt  bool              `json:"noopt"`
 	Script string            `json:"script"`
 	Msg    string            `json:"message,omitempty"`
@@ -48,6 +49,8 @@ func runWins(c *WinsCase) error {
 				out.A = append(out.A, lang.Str("string")) // type("x")
 			case registered[n]:
 				out.A = append(out.A, lang.Str("host-"+n))
+			case c.Plain[n]:
+				out.A = append(out.A, lang.Int(int64(len(n))))
 			default:
 				out.A = append(out.A, lang.Str("user-"+n))
 			}
@@ -97,7 +100,7 @@ func TestC06BuiltinWins(t *testing.T) {
 	defer silenceAs("builtinwins")()
 	col := evid.New("C06", "builtinwins", "")
 	rapidCheck(t, col, func(rt *rapid.T) {
-		c := &WinsCase{Prop: "C06", Kind: "builtin-wins", When: map[string]string{}, NoOpt: rapid.Bool().Draw(rt, "noopt")}
+		c := &WinsCase{Prop: "C06", Kind: "builtin-wins", When: map[string]string{}, Plain: map[string]bool{}, NoOpt: rapid.Bool().Draw(rt, "noopt")}
 		pool := []string{"classify", "score", "type", "helper", "check", "fmtname"}
 		n := rapid.IntRange(1, 5).Draw(rt, "n")
 		var defs, calls []string
@@ -109,6 +112,13 @@ func TestC06BuiltinWins(t *testing.T) {
 			}
 			c.Names = append(c.Names, name)
 			c.When[name] = when
+			if name != "type" && rapid.Bool().Draw(rt, "plain") {
+				// nothing to pass, a constant to return: the simplest function there is
+				c.Plain[name] = true
+				defs = append(defs, fmt.Sprintf("function %s() { return %d; }", name, len(name)))
+				calls = append(calls, name+"()")
+				continue
+			}
 			defs = append(defs, fmt.Sprintf("function %s(v) { return \"user-%s\"; }", name, name))
 			calls = append(calls, name+"(\"x\")")
 		}
